@@ -203,6 +203,15 @@ func (g *GruleEngine) ExecuteWithContext(ctx context.Context, dataCtx ast.IDataC
 			}
 		}
 
+		// The context may have been cancelled while the rules were being evaluated; a rule whose
+		// evaluation was refused for that reason is not a candidate, so stop here instead of
+		// firing another rule or reporting quiescence.
+		if ctx.Err() != nil {
+			log.Error("Context canceled")
+
+			return ctx.Err()
+		}
+
 		// disabled to test the rete's variable change detection.
 		// knowledge.RuleContextReset()
 		log.Tracef("Selected rules %d.", len(runnable))
